@@ -19,8 +19,30 @@ def g(x):
     return snap_gauss(x, what='scalar')
 
 
-def gauss_like(rng, shape):
+def gauss_like(rng, shape, real=False):
+    if real:
+        return rng.integers(-2, 3, size=shape).astype(float)
     return (rng.integers(-2, 3, size=shape) + 1j * rng.integers(-2, 3, size=shape)).astype(complex)
+
+
+def mix_dtypes(rng, obj):
+    """make some site tensors real-typed (their imaginary parts are dropped): per-site dtypes differ within one object"""
+    for i in range(len(obj.A)):
+        if rng.random() < 0.5:
+            obj.A[i] = np.ascontiguousarray(obj.A[i].real)
+
+
+def shift_charges(obj, k):
+    """the same state with all bond quantum numbers shifted by k (same physical sector, different leading charge)"""
+    for i in range(len(obj.qD)):
+        obj.qD[i] = obj.qD[i] + k
+
+
+def unchanged(arrs, fn):
+    from ..observe import digest_arrays
+    before = digest_arrays(arrs)
+    out = fn()
+    return out, bool(before == digest_arrays(arrs))
 
 
 def hermitian_mpo(ptn, rng, L, d):
@@ -49,10 +71,21 @@ def record_history(ptn, seed, quick):
         chi = new_obj(ptn, rng, fam, 'mps', 3 if L <= 2 else 2)
         op = hermitian_mpo(ptn, rng, L, d) if herm else new_obj(ptn, rng, fam, 'mpo', 2)
         rho = new_obj(ptn, rng, dict(fam, qt_mpo=None), 'mpo', 2)
+        if rng.random() < 0.4:
+            mix_dtypes(rng, chi)
+        if rng.random() < 0.3:
+            mix_dtypes(rng, psi)
+        if rng.random() < 0.3 and not herm:
+            op.A = [np.ascontiguousarray(a.real) for a in op.A]
+        if rng.random() < 0.3:
+            shift_charges(chi, int(rng.integers(1, 3)))
+        inputs = list(psi.A) + list(chi.A) + list(op.A) + list(rho.A)
         tr.append(dict(ev='mps', id=1, T=tens(psi)))
         tr.append(dict(ev='mps', id=2, T=tens(chi)))
         tr.append(dict(ev='mpo', id=3, T=tens(op)))
         tr.append(dict(ev='mpo', id=4, T=tens(rho)))
+        from ..observe import digest_arrays
+        dig0 = digest_arrays(inputs)
         tr.append(dict(ev='vdot', a=2, b=1, val=g(ptn.vdot(chi, psi))))
         tr.append(dict(ev='vdot', a=1, b=2, val=g(ptn.vdot(psi, chi))))
         tr.append(dict(ev='vdot', a=1, b=1, val=g(ptn.norm(psi)**2)))                 # norm^2 = <psi|psi>
@@ -83,24 +116,31 @@ def record_history(ptn, seed, quick):
                 out2 = ptn.apply_local_hamiltonian(BL[i], BR[i + 1], Wm, Am)
                 tr.append(dict(ev='heff2', psi=tens(psi), op=tens(op), site=i + 1, At0=snap_array_gauss(A0, 'A0'), At1=snap_array_gauss(A1, 'A1'),
                                Wm=snap_array_gauss(Wm, 'Wm'), Am=snap_array_gauss(Am, 'Am'), out=snap_array_gauss(out2, 'heff2')))
+        if digest_arrays(inputs) != dig0:
+            tr.append(dict(ev='raise', exc='an argument of a pure operation (vdot / norm / averages / blocks / local operators) was modified'))
         # direct transfer steps with independent bra / ket shapes
         dd = int(rng.integers(1, 4))
         sa, sb = (dd, int(rng.integers(1, 3)), int(rng.integers(1, 3))), (dd, int(rng.integers(1, 3)), int(rng.integers(1, 3)))
-        A, B = gauss_like(rng, sa), gauss_like(rng, sb)
+        rk = bool(rng.random() < 0.4)          # real ket / operator / block with a complex bra: conjugation side matters
+        A, B = gauss_like(rng, sa, real=rk), gauss_like(rng, sb)
         w = (int(rng.integers(1, 3)), int(rng.integers(1, 3)))
-        W = gauss_like(rng, (dd, dd) + w)
-        R = gauss_like(rng, (sa[2], w[1], sb[2]))
-        Lb = gauss_like(rng, (sa[1], w[0], sb[1]))
+        W = gauss_like(rng, (dd, dd) + w, real=rk)
+        R = gauss_like(rng, (sa[2], w[1], sb[2]), real=rk)
+        Lb = gauss_like(rng, (sa[1], w[0], sb[1]), real=rk)
         opn = ptn.operation
         tr.append(dict(ev='step_right', A=snap_array_gauss(A, 'A'), B=snap_array_gauss(B, 'B'), W=snap_array_gauss(W, 'W'), X=snap_array_gauss(R, 'R'),
                        out=snap_array_gauss(opn.contraction_operator_step_right(A, B, W, R), 'out')))
         tr.append(dict(ev='step_left', A=snap_array_gauss(A, 'A'), B=snap_array_gauss(B, 'B'), W=snap_array_gauss(W, 'W'), X=snap_array_gauss(Lb, 'L'),
                        out=snap_array_gauss(opn.contraction_operator_step_left(A, B, W, Lb), 'out')))
-        R2, L2 = gauss_like(rng, (sa[2], sb[2])), gauss_like(rng, (sa[1], sb[1]))
+        R2, L2 = gauss_like(rng, (sa[2], sb[2]), real=rk), gauss_like(rng, (sa[1], sb[1]))
+        direct = [A, B, W, R, Lb, R2, L2]
+        dig1 = digest_arrays(direct)
         tr.append(dict(ev='cstep_right', A=snap_array_gauss(A, 'A'), B=snap_array_gauss(B, 'B'), X=snap_array_gauss(R2, 'R'),
                        out=snap_array_gauss(opn.contraction_step_right(A, B, R2), 'out')))
         tr.append(dict(ev='cstep_left', A=snap_array_gauss(A, 'A'), B=snap_array_gauss(B, 'B'), X=snap_array_gauss(L2, 'L'),
                        out=snap_array_gauss(opn.contraction_step_left(A, B, L2), 'out')))
+        if digest_arrays(direct) != dig1:
+            tr.append(dict(ev='raise', exc='a transfer contraction step modified one of its arguments'))
     except OffLattice as ex:
         tr.append(dict(ev='raise', exc=f'OffLattice: {ex}'))
     except BaseException as ex:  # noqa
